@@ -223,6 +223,8 @@ def plumbing(ctx):
         if pv:
             key = {"newton": "newton-incremental-duplicate-dirichlet", "newtondup": "newton-incremental-duplicate-dirichlet",
                    "r2dup": "lagrange-duplicate-dirichlet", "r2": "lagrange-constraints", "r1": "r1-constraints", "r1dup": "r1-constraints"}[case["mode"]]
+            if key == "lagrange-duplicate-dirichlet" and not any(isinstance(t[1], float) and t[1] != t[1] for t in pv):
+                key = "lagrange-constraints"     # wrong values, not the singular (NaN) system of a duplicated dof
             pred_bad.setdefault(key, []).append((cid, pv))
     for key, lst in pred_bad.items():
         cid, pv = lst[0]
@@ -403,8 +405,16 @@ def physics(ctx):
                # problems WITH Lagrange conditions, every installed backend configured on the simulation
                {"id": 6, "scenario": "beam-connection-backends", "nel": 100, "F": 0.5, "elem": "SEG3", "backends": BACKENDS},
                {"id": 7, "scenario": "beam-connection-backends", "nel": rng.choice([60, 80, 120]), "F": dy(rng, 1, 8), "elem": rng.choice(["SEG2", "SEG3"]), "backends": BACKENDS},
+               # every kind of simulation (incl. the two-field PhaseField one, both problems) on meshes WITH orphan nodes
+               {"id": 9, "scenario": "orphan-nodes", "kind": "phasefield", "nx": rng.randint(3, 5), "ny": rng.randint(2, 3), "elem": "TRI3", "orphans": rng.randint(1, 3),
+                "split": "Amor", "regu": "AT2", "loads": [0.0625, 0.125]},
+               {"id": 10, "scenario": "orphan-nodes", "kind": "phasefield", "nx": rng.randint(2, 4), "ny": rng.randint(2, 3), "elem": rng.choice(["TRI3", "QUAD4"]), "orphans": rng.randint(1, 2),
+                "split": rng.choice(["Bourdin", "Amor", "Miehe"]), "regu": rng.choice(["AT1", "AT2"]), "loads": [dy(rng, 1, 4)], "damage_bc": rng.random() < 0.5},
+               {"id": 11, "scenario": "orphan-nodes", "kind": "hyperelastic", "orphans": rng.randint(1, 2), "v1": dy(rng, 1, 3)},
+               {"id": 12, "scenario": "orphan-nodes", "kind": "beam", "orphans": rng.randint(1, 2), "F": dy(rng, 1, 8), "connection": True},
+               {"id": 13, "scenario": "orphan-nodes", "kind": "beam", "orphans": rng.randint(1, 2), "F": dy(rng, 1, 8)},
                {"id": 8, "scenario": "elastic-mpc-backends", "nx": rng.randint(6, 10), "ny": rng.randint(4, 6), "v1": dy(rng, 1, 8), "v2": dy(rng), "backends": BACKENDS}]
-    sres, err = call_impl(ctx, "special", special, nchunk=3)
+    sres, err = call_impl(ctx, "special", special, nchunk=4)
     if sres is None:
         ctx.obligation("corrB:special-run", False, err[-1500:])
         ctx.violation("corrB:impl-crash", "special-scenario harness failed: " + (err.strip().splitlines()[-1][:300] if err.strip() else "?"), {"stderr": err[-3000:]}, found_input=False)
@@ -430,6 +440,7 @@ def physics(ctx):
                 nchecks += 1
                 base = re.sub(r"^(backend|lagrange-backends):[a-z_]+:", r"\1:", c["name"])
                 base = re.sub(r"^multi:stage\d+:", "multi:", base)
+                base = re.sub(r":step\d+:", ":", base)
                 names[base] = names.get(base, 0) + 1
                 if not c["ok"]:
                     key = SPECIAL_KEYS.get(c["name"]) if mode == "special" else None
@@ -437,6 +448,8 @@ def physics(ctx):
                         key = "backend-raises:" + c["name"].split(":")[1]
                     if key is None and c["name"].startswith("lagrange-backends:"):
                         key = "lagrange-backend:" + c["name"].split(":")[1]
+                    if key is None and c["name"].startswith("orphans:"):
+                        key = "orphan-nodes:" + c["name"].split(":")[1] + ":" + c["name"].split(":")[-1]
                     if key is None and c["name"].startswith("multi:"):
                         key = "multi-solve:" + c["name"].split(":")[3]
                     if key is None and re.match(r"backend:[a-z_]+:agrees-with-direct$", c["name"]):
